@@ -153,7 +153,7 @@ class FindExtrema:
         n = 7 if tier == 'quick' else 9
         return ('the external filter replaced by an enumerated filtered signal: every sign pattern over {-1, 0, 1} of padded '
                 'length <= %d (sampled beyond length 6) x raw signals over {0,1,2} (ties and plateaus), pad widths {0,1,2}, '
-                'boundary {0,1,2}, first_extrema {peak, trough, None}; plus the real filter on the signal corpus' % n)
+                'boundary {0,1,2}, first_extrema {peak, trough, None}; integer recordings (int8 / int16 / uint16) touching the type\'s extreme values; plus the real filter on the signal corpus' % n)
 
     def gen(self, tier, seed):
         rng = random.Random(seed)
@@ -173,6 +173,12 @@ class FindExtrema:
                         for boundary in (0, 1, 2):
                             for fe in ('peak', 'trough', None):
                                 yield dict(kind='stub', F=list(F), raw=raw, pad=pad, boundary=boundary, fe=fe)
+                    # integer recordings (ADC counts) incl. the type's extreme values: order must be that of the values, not
+                    # of their machine negation (-(-32768) == -32768 in int16, -0 == 0 in uint16)
+                    for dt, lv in (('int16', (-32768, -5, 7)), ('uint16', (0, 8, 90)), ('int8', (-128, 0, 127))):
+                        rawi = [rng.choice(lv) for _ in range(n)]
+                        yield dict(kind='stub', F=list(F), raw=rawi, pad=0, boundary=rng.choice((0, 1)), fe=rng.choice(('peak', 'trough', None)),
+                                   dtype=dt)
         from .signals import FAMILIES
         for fam in FAMILIES:
             for fe in ('peak', 'trough', None):
@@ -209,9 +215,9 @@ class FindExtrema:
         pad = c['pad']
         n = len(F)
         sig_len = n - 2 * pad
-        raw = np.array(c['raw'][pad:n - pad] if pad else c['raw'], dtype=float)
+        raw = np.array(c['raw'][pad:n - pad] if pad else c['raw'], dtype=c.get('dtype', float))
         sigp = np.pad(raw, pad, mode='constant')
-        exp = extrema_ref(sigp, F, pad, c['boundary'], sig_len, c['fe'])
+        exp = extrema_ref(sigp.astype(float), F, pad, c['boundary'], sig_len, c['fe'])       # (the reference orders exact values)
         if exp is None:
             return None
         if c['fe'] is None and (not exp[0] or not exp[1]):
